@@ -23,6 +23,7 @@ static bool dispatch(Pools& w, const std::string& key, const std::vector<long>& 
 //    C enum|mapping|class|block|xlist|namespace|module     create a container; remembered as container
 //    M <container#>                   add one member to that container (enumerator, parameter, base + field,
 //                                     handler, expression, variable, module unit); the member is remembered
+//    S <count> <length>               intern <count> fresh words of <length> bytes; each String node is remembered
 //    W <n>                            build a product from a temporary Warehouse of n types, destroy the Warehouse
 //    CHECK all | CHECK <k> <seed>     re-observe all / k pseudo-randomly chosen remembered nodes
 // stdout: CHANGED / MOVED lines for every discrepancy, DUP lines for equal addresses, then one summary line.
@@ -141,6 +142,18 @@ static int history(Pools& w)
             else if (c.ns) note(*c.ns->body.declare_var(name, ty), "M-var", id, true);
             else if (c.mod) { auto* u = c.mod->make_unit(); note(u->global_namespace(), "M-unit.global_namespace", id, true); }
             ++c.added; ++members;
+         }
+         else if (key == "S") {
+            // S <count> <length>: intern <count> fresh words of <length> bytes (the string arena grows by whole pools)
+            std::size_t count = 1, len = 8; ss >> count >> len;
+            static std::size_t serial = 0;
+            for (std::size_t j = 0; j < count; ++j) {
+               std::u8string word(len, u8'a');
+               std::size_t v = ++serial;
+               for (std::size_t k = 0; k < len and k < 12; ++k) { word[k] = char8_t('a' + v % 26); v /= 26; }
+               word[len - 1] = char8_t('A' + serial % 26);
+               note(w.lex.get_string(word), "S-string", std::to_string(serial));
+            }
          }
          else if (key == "W") {
             std::size_t n = 1; ss >> n;
